@@ -1,6 +1,7 @@
 import VlsModel.Model.Enforcement
 import VlsModel.Gen.FnEnforce
 import VlsModel.Lemmas.FnGen
+import VlsModel.Lemmas.EnforcementFn
 /-
 C03 — the enforcement-state updates and selectors that the hand-written model `Model/Enforcement.lean` inlines
 in `signCp`, `revokeCp`, `revoke` and `prevPoint`, proved equal to the bodies of
@@ -8,10 +9,8 @@ in `signCp`, `revokeCp`, `revoke` and `prevPoint`, proved equal to the bodies of
 get_previous_counterparty_commit_info, set_next_counterparty_revoke_num}` that `translate/rs2lean.py` regenerates
 from `vls-core/src/policy/validator.rs` (`Gen/FnEnforce.lean`) on every run.
 
-`toES` reads a model channel as the nine translated fields of `EnforcementState`; the opaque Rust types
-(`PublicKey`, `CommitmentInfo2`, `CommitmentSignatures`) are instantiated with the model's identifiers (`Nat`).
-The model keeps one field `cur` for `current_holder_commit_info` + `current_counterparty_signatures` (they are
-always written together), so `toES` copies it into both.
+`toES` (now in `Lemmas/EnforcementFn.lean`, shared with `C01Fn.lean` / `C02Fn.lean`) reads a model channel as the
+nine translated fields of `EnforcementState`.
 
 Each theorem is stated under exactly the guard under which the model performs the update (the guards are the
 `Validator::set_next_*` checks that precede the call), plus the 64-bit range of the counters; the companion
@@ -19,16 +18,8 @@ Each theorem is stated under exactly the guard under which the model performs th
 -/
 namespace VlsModel.Props.C03Fn
 open VlsModel VlsModel.Enforcement
-open VlsModel.Gen.FnEnforce (EnforcementState)
-
-abbrev ES := EnforcementState Nat Nat Nat
-
-def toES (c : Chan) : ES :=
-  { next_holder_commit_num := c.next, next_counterparty_commit_num := c.cpCommit,
-    next_counterparty_revoke_num := c.cpRevoke, current_counterparty_point := c.curPt,
-    previous_counterparty_point := c.prevPt, current_holder_commit_info := c.cur,
-    current_counterparty_signatures := c.cur, current_counterparty_commit_info := c.curInfo,
-    previous_counterparty_commit_info := c.prevInfo }
+open VlsModel.Gen.FnEnforce
+open VlsModel.Lemmas.EnforcementFn
 
 /-- `advance_holder_commitment_state` in `revoke`: `set_next_holder_commit_num(next + 1, info, sigs)` -/
 theorem C03_fn_set_next_holder_commit_num (c : Chan) (info : Nat) (h : c.next + 1 ≤ Rs.U64_MAX) :
@@ -97,5 +88,155 @@ theorem C03_fn_set_next_counterparty_revoke_num (c : Chan) (num : Nat) (h0 : num
 theorem C03_fn_set_next_counterparty_revoke_num_panic (c : Chan) :
     (toES c).set_next_counterparty_revoke_num 0 = .error .panic := by
   simp [EnforcementState.set_next_counterparty_revoke_num, Rs.assert, Rs.panic, bind, Except.bind]
+
+/-! ### the guards in front of the setters: default methods of `trait Validator` (validator.rs:301 / :342) -/
+
+/-- `Validator::set_next_counterparty_commit_num(n + 1, pt, info)` with the tags kept errors is, on every input in
+    the 64-bit range, the decision list that the model's `signCp` inlines after the `SimpleValidator` checks:
+    window relative to the revocation counter (`delta` = 1 for the initial commitment, else 2), progression
+    `num ∈ {current, current + 1}`, then the setter (progression moves current to previous, a retry moves nothing) -/
+theorem C03_fn_validator_set_next_counterparty_commit_num (f : String → Bool)
+    (hf : f "policy-commitment-previous-revoked" = true) (c : Chan) (n pt info : Nat)
+    (hr : c.cpRevoke + 2 ≤ Rs.U64_MAX) (hc : c.cpCommit + 1 ≤ Rs.U64_MAX) :
+    Validator.set_next_counterparty_commit_num f (toES c) (n + 1) pt info
+      = if n + 1 < c.cpRevoke + (if n + 1 = 1 then 1 else 2) then .error (.err "policy-commitment-previous-revoked")
+        else if n + 1 ≠ c.cpCommit ∧ n + 1 ≠ c.cpCommit + 1 then .error (.err "policy-commitment-previous-revoked")
+        else if n + 1 = c.cpCommit + 1 then
+          .ok (toES { c with prevPt := c.curPt, prevInfo := c.curInfo, curPt := some pt, curInfo := some info,
+                             cpCommit := n + 1 })
+        else .ok (toES c) := by
+  obtain ⟨slot, next, cur, nextInfo, closed, m, r, curPt, prevPt, curInfo, prevInfo, secrets⟩ := c
+  simp only [Rs.U64_MAX] at hr hc ⊢
+  have hr1 : r + 1 ≤ 18446744073709551615 := by omega
+  have hm0 : m ≤ 18446744073709551615 := by omega
+  unfold Validator.set_next_counterparty_commit_num EnforcementState.set_next_counterparty_commit_num
+  simp only [toES, policyErr_keep f _ hf, Rs.uadd, Rs.U64_MAX, Rs.assert]
+  by_cases h1 : n = 0
+  · subst h1
+    by_cases a : r = 0
+    · subst a
+      by_cases b : m = 1
+      · subst b; simp
+      · by_cases b' : m = 0
+        · subst b'; simp
+        · have b1 : ¬ 1 = m := fun h => b h.symm
+          have b2 : ¬ 1 = m + 1 := by omega
+          simp [b, b', b1, b2, hc]
+    · have a' : 1 < r + 1 := by omega
+      simp [a', hr1]
+  · have h1' : ¬ n + 1 = 1 := by omega
+    simp only [h1', if_false]
+    by_cases a : n + 1 < r + 2
+    · simp [a, hr, h1]
+    · by_cases b : n + 1 = m
+      · subst b
+        have b2 : ¬ n + 1 = n + 1 + 1 := by omega
+        have c1 : ¬ n + 1 < n := by omega
+        have c2 : ¬ n + 1 ≤ n := by omega
+        simp [a, hr, hc, h1, hm0, c1, c2]
+      · by_cases b' : n = m
+        · subst b'
+          simp [a, hr, hc, h1, hm0]
+        · have b2 : ¬ n + 1 = m + 1 := by omega
+          simp [a, b, b', b2, hr, hc, h1, hm0]
+
+/-- the model's `signCp` after the `SimpleValidator::validate_counterparty_commitment_tx` checks IS this call:
+    same result class, and on success the model's new state read as an `EnforcementState` is the generated one -/
+theorem C03_fn_signCp_tail (c : Chan) (n pt info : Nat)
+    (hr : c.cpRevoke + 2 ≤ Rs.U64_MAX) (hc : c.cpCommit + 1 ≤ Rs.U64_MAX)
+    (h0 : ¬ n > c.cpRevoke + 1) (h1 : ¬ (n + 1 = c.cpCommit ∧ c.curPt ≠ some pt))
+    (h2 : ¬ (n + 1 = c.cpCommit ∧ c.curInfo ≠ some info)) :
+    (signCp c n pt info true).out.res
+        = cls (Validator.set_next_counterparty_commit_num strict (toES c) (n + 1) pt info)
+    ∧ (∀ e, Validator.set_next_counterparty_commit_num strict (toES c) (n + 1) pt info = .ok e →
+          toES (signCp c n pt info true).c = e)
+    ∧ ((signCp c n pt info true).out.res ≠ .ok → (signCp c n pt info true).c = c) := by
+  rw [C03_fn_validator_set_next_counterparty_commit_num strict rfl c n pt info hr hc]
+  unfold signCp
+  simp only [Bool.not_true, Bool.false_eq_true, if_false, h0, h1, h2]
+  by_cases a : n + 1 < c.cpRevoke + (if n + 1 = 1 then 1 else 2)
+  · simp only [if_pos a, fail, cls_err]; simp
+  · simp only [if_neg a]
+    by_cases b : n + 1 ≠ c.cpCommit ∧ n + 1 ≠ c.cpCommit + 1
+    · simp only [if_pos b, fail, cls_err]; simp
+    · simp only [if_neg b]
+      by_cases d : n + 1 = c.cpCommit + 1
+      · simp only [if_pos d, cls_ok]; simp
+      · simp only [if_neg d, cls_ok]; simp
+
+/-- `Validator::set_next_counterparty_revoke_num(n + 1)` with the tags kept errors is the decision list that the
+    model's `revokeCp` inlines after the secret-store step: not too small / not too large relative to the signing
+    counter, progression `num ∈ {current, current + 1}`, then the setter -/
+theorem C03_fn_validator_set_next_counterparty_revoke_num (f : String → Bool)
+    (hf : f "policy-commitment-previous-revoked" = true) (c : Chan) (n : Nat)
+    (hn : n + 3 ≤ Rs.U64_MAX) (hr : c.cpRevoke + 1 ≤ Rs.U64_MAX) :
+    Validator.set_next_counterparty_revoke_num f (toES c) (n + 1)
+      = if n + 1 + 2 < c.cpCommit then .error (.err "policy-commitment-previous-revoked")
+        else if n + 1 + 1 > c.cpCommit then .error (.err "policy-commitment-previous-revoked")
+        else if n + 1 ≠ c.cpRevoke ∧ n + 1 ≠ c.cpRevoke + 1 then .error (.err "policy-commitment-previous-revoked")
+        else .ok (toES { c with prevInfo := if n + 1 + 1 ≥ c.cpCommit then none else c.prevInfo,
+                                cpRevoke := n + 1 }) := by
+  obtain ⟨slot, next, cur, nextInfo, closed, m, r, curPt, prevPt, curInfo, prevInfo, secrets⟩ := c
+  simp only [Rs.U64_MAX] at hn hr ⊢
+  have hn2 : n + 1 + 2 ≤ 18446744073709551615 := by omega
+  have hn1 : n + 1 + 1 ≤ 18446744073709551615 := by omega
+  unfold Validator.set_next_counterparty_revoke_num EnforcementState.set_next_counterparty_revoke_num
+  simp only [toES, policyErr_keep f _ hf, Rs.uadd, Rs.U64_MAX, Rs.assert]
+  by_cases a : n + 1 + 2 < m
+  · simp [a, hn2]
+  · by_cases b : n + 1 + 1 > m
+    · have b' : m < n + 1 + 1 := b
+      simp [a, b, b', hn2, hn1]
+    · have b' : ¬ m < n + 1 + 1 := b
+      by_cases d1 : n + 1 = r
+      · subst d1
+        by_cases e : m ≤ n + 1 + 1
+        · have e' : n + 1 + 1 ≥ m := e
+          simp [a, b, b', hn2, hn1, hr, e, e']
+        · have e' : ¬ n + 1 + 1 ≥ m := e
+          simp [a, b, b', hn2, hn1, hr, e, e']
+      · by_cases d2 : n = r
+        · subst d2
+          by_cases e : m ≤ n + 1 + 1
+          · have e' : n + 1 + 1 ≥ m := e
+            simp [a, b, b', hn2, hn1, hr, e, e']
+          · have e' : ¬ n + 1 + 1 ≥ m := e
+            simp [a, b, b', hn2, hn1, hr, e, e']
+        · have d3 : ¬ n + 1 = r + 1 := by omega
+          simp [a, b, b', d1, d2, d3, hn2, hn1, hr]
+
+/-- whatever the policy filter, the two `assert`s of the setters stand behind the guards: `num = 0` never returns
+    a state (a demoted `policy-other` only turns the refusal into a panic) -/
+theorem C03_fn_validator_zero_never_ok (f : String → Bool) (c : Chan) (pt info : Nat) (e : ES) :
+    Validator.set_next_counterparty_revoke_num f (toES c) 0 ≠ .ok e
+    ∧ Validator.set_next_counterparty_commit_num f (toES c) 0 pt info ≠ .ok e := by
+  constructor
+  · intro h
+    unfold Validator.set_next_counterparty_revoke_num EnforcementState.set_next_counterparty_revoke_num at h
+    cases hf : f "policy-other"
+    · cases hf2 : f "policy-commitment-previous-revoked" <;>
+        simp [Rs.policyErr, Rs.fail, hf, hf2, Rs.uadd, Rs.U64_MAX, Rs.assert, Rs.panic, toES, bind, Except.bind,
+              pure, Except.pure] at h <;> (repeat (split at h <;> try cases h))
+    · simp [Rs.policyErr, Rs.fail, hf, bind, Except.bind] at h
+  · intro h
+    unfold Validator.set_next_counterparty_commit_num EnforcementState.set_next_counterparty_commit_num at h
+    cases hf : f "policy-other"
+    · cases hf2 : f "policy-commitment-previous-revoked" <;>
+        simp [Rs.policyErr, Rs.fail, hf, hf2, Rs.uadd, Rs.assert, Rs.panic, toES, bind, Except.bind,
+              pure, Except.pure] at h <;> (repeat (split at h <;> try cases h))
+    · simp [Rs.policyErr, Rs.fail, hf, bind, Except.bind] at h
+
+-- non-vacuity: commit 4 / revoke 2 (two unrevoked commitments 2 and 3)
+example : Validator.set_next_counterparty_commit_num strict
+    (toES { slot := .ready, cpCommit := 4, cpRevoke := 2, curPt := some 13, prevPt := some 12 }) 6 14 1
+    = .error (.err "policy-commitment-previous-revoked") := by
+  simp [Validator.set_next_counterparty_commit_num, toES, Rs.uadd, Rs.U64_MAX, policyErr_strict]
+example : Validator.set_next_counterparty_revoke_num strict
+    (toES { slot := .ready, cpCommit := 4, cpRevoke := 2, curPt := some 13, prevPt := some 12 }) 3
+    = .ok (toES { slot := .ready, cpCommit := 4, cpRevoke := 3, curPt := some 13, prevPt := some 12 }) := by rfl
+example : Validator.set_next_counterparty_commit_num strict
+    (toES { slot := .ready, cpCommit := 4, cpRevoke := 3, curPt := some 13, prevPt := some 12 }) 5 14 1
+    = .ok (toES { slot := .ready, cpCommit := 5, cpRevoke := 3, curPt := some 14, prevPt := some 13,
+                  curInfo := some 1 }) := by rfl
 
 end VlsModel.Props.C03Fn
